@@ -155,3 +155,20 @@ func (i *Informer) LastSyncResourceVersion() string                    { return 
 func (i *Informer) SetWatchErrorHandler(cache.WatchErrorHandler) error { return nil }
 func (i *Informer) AddIndexers(indexers cache.Indexers) error          { return i.indexer.AddIndexers(indexers) }
 func (i *Informer) GetIndexer() cache.Indexer                          { return i.indexer }
+
+// InformerSnapshot captures cache content and pending events.
+type InformerSnapshot struct {
+	cache   []interface{}
+	pending []Event
+}
+
+// Snapshot captures the informer state (objects are shared, never mutated).
+func (i *Informer) Snapshot() *InformerSnapshot {
+	return &InformerSnapshot{cache: i.indexer.List(), pending: append([]Event(nil), i.pending...)}
+}
+
+// Restore resets the informer to a snapshot without notifying handlers.
+func (i *Informer) Restore(s *InformerSnapshot) {
+	_ = i.indexer.Replace(s.cache, "")
+	i.pending = append([]Event(nil), s.pending...)
+}
